@@ -36,6 +36,7 @@ struct IntKeys { using key = int; using hasher = HashFn; static key make(int i) 
 struct FrgIntKeys { using key = int; using hasher = frg::hash<int>; static key make(int i) { return (i & 1) ? -i : i; } static hasher hash(int) { return {}; } };
 struct FrgI64Keys { using key = int64_t; using hasher = frg::hash<int64_t>; static key make(int i) { return (i & 1) ? -(int64_t)i * 0x100000001ll : (int64_t)i * 0x100000001ll + ((int64_t)i << 40); } static hasher hash(int) { return {}; } };
 struct FrgU64Keys { using key = uint64_t; using hasher = frg::hash<uint64_t>; static key make(int i) { return (uint64_t)i * 0x9E3779B97F4A7C15ull; } static hasher hash(int) { return {}; } };
+struct FrgUIntKeys { using key = unsigned int; using hasher = frg::hash<unsigned int>; static key make(int i) { return 0x80000000u + (unsigned)i * 0x10001u; } static hasher hash(int) { return {}; } };
 static char g_ptr_pool[4096];
 struct FrgPtrKeys { using key = char *; using hasher = frg::hash<char *>; static key make(int i) { return &g_ptr_pool[i]; } static hasher hash(int) { return {}; } };
 
@@ -51,7 +52,7 @@ struct HmHarness : HarnessBase {
 
 	HmHarness(int mode_, int prefill_, bool drain) : mode(mode_), prefill(prefill_), drain_first(drain) {
 		std::vector<int> pre;
-		for(int i = 0; i < prefill; i++) pre.push_back(3 * i + 1);
+		for(int i = 0; i < (prefill == -3 ? 3 : prefill); i++) pre.push_back(3 * i + 1);
 		if(!drain && prefill) { alphabet.push_back(pre[0]); if(prefill > 1) alphabet.push_back(pre[prefill / 2]); }
 		for(int k : {1013, 1027, 1035}) alphabet.push_back(k);
 		if(alphabet.size() < 5) alphabet.push_back(2050);
@@ -63,7 +64,13 @@ struct HmHarness : HarnessBase {
 	void reset() {
 		world_reset();
 		memset(store, 0, sizeof store);
-		new(store) M(KS::hash(mode), TrackAlloc{}); alive = true; ref.clear();
+		ref.clear();
+		if(prefill == -3) {   // initializer-list constructor with three entries (keys 1, 4, 7 like the pre-fill)
+			new(store) M(KS::hash(mode), {typename M::entry_type{KS::make(1), Val(1)}, typename M::entry_type{KS::make(4), Val(2)}, typename M::entry_type{KS::make(7), Val(1)}}, TrackAlloc{});
+			alive = true; ref[1] = 1; ref[4] = 2; ref[7] = 1;
+			return;
+		}
+		new(store) M(KS::hash(mode), TrackAlloc{}); alive = true;
 		for(int i = 0; i < prefill; i++) { int k = 3 * i + 1; m().insert(KS::make(k), Val(1 + (i & 1))); ref[k] = 1 + (i & 1); }
 		if(drain_first) { for(int i = 0; i < prefill; i++) { m().remove(KS::make(3 * i + 1)); } ref.clear(); }
 	}
@@ -142,6 +149,26 @@ struct HmHarness : HarnessBase {
 			seen[k] = val(it->template get<1>());
 		}
 		if(seen != ref) fail("iteration:set", "iterated entry set differs from the reference");
+		// const_iterator (obtainable from const find() only): walking on from any present key visits distinct present
+		// entries and ends at end(); operator* and operator bool of both iterator kinds
+		for(auto &kv0 : ref) {
+			std::map<int, int> cseen; guard = 0;
+			for(auto it = cx.find(KS::make(kv0.first)); !(it == cx.end()); ++it) {
+				if(++guard > ref.size() + 2) fail("iteration:runaway", "const iteration yields more entries than size()");
+				if(!it) fail("iteration:bool", "a dereferenceable const_iterator converts to false");
+				const auto &e = *it;
+				if(&e != it.operator->()) fail("iteration:deref", "operator* and operator-> of const_iterator designate different entries");
+				Key rk = e.template get<0>(); int k = INT_MIN;
+				for(int u : universe) if(KS::make(u) == rk) k = u;
+				if(cseen.count(k)) fail("iteration:duplicate", "const iteration yields an entry twice");
+				cseen[k] = val(e.template get<1>());
+				auto r = ref.find(k);
+				if(r == ref.end() || r->second != cseen[k]) fail("iteration:const-set", "const iteration yields an entry that the reference does not hold");
+			}
+			if(!cseen.count(kv0.first)) fail("iteration:const-set", "const iteration from find(k) does not start at k");
+		}
+		if(!ref.empty()) { auto it = x.begin(); if(!it) fail("iteration:bool", "begin() of a non-empty map converts to false"); if(&(*it).template get<1>() != &it->template get<1>()) fail("iteration:deref", "operator* and operator-> designate different entries"); }
+		if(x.end() || cx.end()) fail("iteration:bool", "end() converts to true");
 		if(res) res->outcomes.insert("size=" + std::to_string(ref.size()));
 	}
 	void final_check() { if(alive) { m().~M(); alive = false; } raise_pending(); world_check_empty("hash_map"); }
@@ -169,6 +196,7 @@ static std::vector<Instance> mk(const std::string &tier) {
 		v.push_back(bfs_instance<HmHarness<Tracked>>(std::string("hm-") + hash_name[mode] + "-fill12-drained", o, mode, 12, true));
 		v.push_back(bfs_instance<HmHarness<Tracked>>(std::string("hm-") + hash_name[mode] + "-fill21-drained", o, mode, 21, true));
 	}
+	for(int mode : {0, 1, 4}) { BfsOptions o; o.max_depth = th ? 5 : 4; v.push_back(bfs_instance<HmHarness<Tracked>>(std::string("hm-") + hash_name[mode] + "-initializer-list", o, mode, -3, false)); }
 	// the library's own hash functors on keys where they are not the identity
 	for(int f : {0, 9, 10, 20, 40}) {
 		BfsOptions o; o.max_depth = th ? 5 : 4;
@@ -176,6 +204,7 @@ static std::vector<Instance> mk(const std::string &tier) {
 		v.push_back(bfs_instance<HmHarness<Tracked, FrgI64Keys>>("hm-frg-hash-i64-fill" + std::to_string(f), o, 0, f, false));
 		v.push_back(bfs_instance<HmHarness<Tracked, FrgU64Keys>>("hm-frg-hash-u64-fill" + std::to_string(f), o, 0, f, false));
 		v.push_back(bfs_instance<HmHarness<Tracked, FrgPtrKeys>>("hm-frg-hash-ptr-fill" + std::to_string(f), o, 0, f, false));
+		v.push_back(bfs_instance<HmHarness<Tracked, FrgUIntKeys>>("hm-frg-hash-uint-fill" + std::to_string(f), o, 0, f, false));
 	}
 	{ BfsOptions o; o.max_depth = th ? 5 : 4; v.push_back(bfs_instance<HmHarness<Tracked, FrgI64Keys>>("hm-frg-hash-i64-fill21-drained", o, 0, 21, true)); }
 	return v;
